@@ -1029,6 +1029,23 @@ func (s *Sim) cancelCtx(c *Ctx, err error, by *thread, why string) {
 		s.res.DerivedCancelled = true
 	}
 	s.event(who, "cancel", c.name+": "+why)
+	if len(c.children) == 0 {
+		return
+	}
+	if by == nil && s.cur == nil {
+		// An outside canceller (the caller, a deadline) closes the parent's Done channel first and reaches
+		// the derived contexts afterwards, as context.cancelCtx.cancel does: other goroutines can observe
+		// the parent cancelled and the child not yet. The propagation is a scheduler-visible step of its own.
+		kids := append([]*Ctx{}, c.children...)
+		var pt *thread
+		pt = s.spawn("ctx-propagate", nil, func() {
+			for _, ch := range kids {
+				s.cancelCtx(ch, err, pt, "parent "+c.name)
+			}
+		})
+		s.res.Probes["ctx_propagation_steps"]++
+		return
+	}
 	for _, ch := range c.children {
 		s.cancelCtx(ch, err, by, "parent "+c.name)
 	}
